@@ -20,11 +20,17 @@ import (
 type verifC02Store struct {
 	zone string
 	keys *dns.Msg
+	ds   func(req *dns.Msg) *dns.Msg // optional: what a `<name> DS` sub-query brings back
 }
 
 func (s *verifC02Store) Get(req *dns.Msg) (*dns.Msg, bool) {
 	if len(req.Question) == 1 && req.Question[0].Qtype == dns.TypeDNSKEY && strings.EqualFold(req.Question[0].Name, s.zone) {
 		return s.keys.Copy(), true
+	}
+	if s.ds != nil && len(req.Question) == 1 && req.Question[0].Qtype == dns.TypeDS {
+		if m := s.ds(req); m != nil {
+			return m, true
+		}
 	}
 	m := new(dns.Msg)
 	m.SetReply(req)
@@ -71,4 +77,14 @@ func VerifC02Authority(r *Resolver, req, resp *dns.Msg, parentDS []dns.RR, zone 
 		proof, marked = middleware.ValidatedNegativeProofForResponse(ctx, out)
 	}
 	return out, proof, marked, err
+}
+
+// VerifC02SetDSResponder installs (or, with nil, removes) the answer the
+// resolver-private cache facade gives to DS sub-queries (accessor only).
+func VerifC02SetDSResponder(r *Resolver, f func(req *dns.Msg) *dns.Msg) {
+	if p := r.store.Load(); p != nil {
+		if s, ok := (*p).(*verifC02Store); ok {
+			s.ds = f
+		}
+	}
 }
